@@ -11,6 +11,7 @@ explanation types × the three flags are tied to this single meaning by comparin
 -/
 import Pumpkin.Spec.Basic
 import Pumpkin.Check.Oracle
+import Pumpkin.Model.CumulativeSound
 
 namespace Pumpkin.C08
 
@@ -171,5 +172,53 @@ theorem loadAt_drop_zero (ts : List Task) (a : List Int) (t : Int) :
 
 example : (Cons.cumulative [⟨⟨1, 0, 0⟩, 2, 2⟩, ⟨⟨1, 0, 1⟩, 3, 1⟩, ⟨⟨-1, 2, 0⟩, 0, 5⟩] 2).sat [-1, 0] = false ∧
     (Cons.cumulative [⟨⟨1, 0, 0⟩, 2, 2⟩, ⟨⟨1, 0, 1⟩, 3, 1⟩, ⟨⟨-1, 2, 0⟩, 0, 5⟩] 2).sat [-2, 0] = true := by decide
+
+/-! ### the time-table propagators (`Model/Cumulative.lean`)
+
+`Pg.ttPass` is time-table filtering as a function on domains (profile of mandatory parts; conflict when
+a profile exceeds the capacity; a task outside a profile it would overflow is pushed off that time
+point: lower bound, upper bound and, with `allow_holes_in_domain`, holes). Its fixpoint `Pg.ttFix` is
+what all six propagator variants compute; the real solver's domains at every decision point of solves
+over cumulative-only models are compared with it (`fix` records: equal, or — the incremental variants
+occasionally miss a propagation — weaker). -/
+
+/-- **Time-table filtering never removes the start times of a schedule which satisfies the
+constraint, and reports a conflict only if there is none** — for every domain state, every list of
+tasks (start times given as views, zero durations / usages, negative start times) and capacity, with
+and without holes. -/
+theorem timetable_never_prunes {n : Nat} (holes : Bool) (ts : List Task) (cap : Int)
+    (hw : Pg.tasksWf n ts) (d : Pg.Doms) (hl : d.length = n) (a : List Int) (hin : inDoms d a = true)
+    (hsat : (Cons.cumulative ts cap).sat a = true) :
+    ∃ d', Pg.ttPass holes ts cap d = some d' ∧ inDoms d' a = true := by
+  have hT : ∀ t, loadAt ts a t ≤ cap :=
+    ((cumulative_sat_iff ts cap a (fun k hk => (hw k hk).2)).1 hsat)
+  obtain ⟨d', e, h', _⟩ := Pg.ttPass_ok holes ts cap hw hT d hin hl
+  exact ⟨d', e, h'⟩
+
+/-- the same for the fixpoint over several cumulative constraints -/
+theorem timetable_fixpoint_never_prunes {n : Nat} (cs : List (Bool × List Task × Int))
+    (hw : Pg.ttWf n cs) (d : Pg.Doms) (hl : d.length = n) (a : List Int) (hin : inDoms d a = true)
+    (hsat : ∀ c ∈ cs, (Cons.cumulative c.2.1 c.2.2).sat a = true) :
+    ∃ d', Pg.ttFix cs d = some d' ∧ inDoms d' a = true := by
+  have hs : Pg.ttSat cs a := fun c hc =>
+    ((cumulative_sat_iff c.2.1 c.2.2 a (fun k hk => (hw c hc k hk).2)).1 (hsat c hc))
+  obtain ⟨d', e, h', _⟩ := Pg.ttFix_ok cs hw hs d hin hl
+  exact ⟨d', e, h'⟩
+
+/-- so a conflict of the time-table refutes the constraint within the current domains -/
+theorem timetable_conflict_sound {n : Nat} (holes : Bool) (ts : List Task) (cap : Int)
+    (hw : Pg.tasksWf n ts) (d : Pg.Doms) (hl : d.length = n) (hc : Pg.ttPass holes ts cap d = none)
+    (a : List Int) (hin : inDoms d a = true) : (Cons.cumulative ts cap).sat a = false := by
+  cases hs : (Cons.cumulative ts cap).sat a
+  · rfl
+  · obtain ⟨d', e, _⟩ := timetable_never_prunes holes ts cap hw d hl a hin hs
+    rw [hc] at e; cases e
+
+-- non-vacuous: a task with a mandatory part pushes another one past it, and an overload is a conflict
+example : Pg.ttPass false [⟨⟨1, 0, 0⟩, 4, 1⟩, ⟨⟨1, 0, 1⟩, 3, 1⟩] 1 [[1], [1, 2, 3, 4, 5, 6, 7, 8]]
+    = some [[1], [5, 6, 7, 8]] := by decide
+example : Pg.ttPass false [⟨⟨1, 0, 0⟩, 4, 1⟩, ⟨⟨1, 0, 1⟩, 4, 1⟩] 1 [[1], [1]] = none := by decide
+example : Pg.ttPass true [⟨⟨1, 0, 0⟩, 2, 1⟩, ⟨⟨1, 0, 1⟩, 2, 1⟩] 1 [[3], [0, 1, 2, 3, 4, 5, 6]]
+    = some [[3], [0, 1, 5, 6]] := by decide
 
 end Pumpkin.C08
